@@ -415,7 +415,7 @@ func (r *vf5Run) obs() string {
 	if f.timer != nil {
 		armed = 1
 	}
-	return fmt.Sprintf("%d/%d/%d/%d/%d/%d", st, f.restartCount, armed, f.lastReqID, f.id, f.failCount)
+	return fmt.Sprintf("%d/%d/%d/%d/%d", st, f.restartCount, armed, f.lastReqID, f.failCount)
 }
 
 func vf5Join(l []string) string {
@@ -507,10 +507,8 @@ func vf5Case(line string) (res string) {
 	}()
 	ops := tk[3:]
 	var out []string
-	// the start value of the Identifier counter is the implementation's choice: reported, not compared
-	f.mu.Lock()
-	out = append(out, fmt.Sprintf("id0=%d", f.id))
-	f.mu.Unlock()
+	// the Identifier counter f.id is not looked at: which Identifiers are used is the implementation's choice,
+	// read by the model from the packets sent
 	var pair []string
 	if tk[0] == "conc" {
 		k := -1
@@ -662,7 +660,7 @@ func vf5Case(line string) (res string) {
 		}
 		r.track()
 	}
-	if len(out) == 1 {
+	if len(out) == 0 {
 		out = append(out, "empty")
 	}
 	return strings.Join(out, " ")
